@@ -165,7 +165,8 @@ Lemma next_element_S f pj o :
           let t2 := word_tag v2 in
           let esize := calc_next false off3 cur t2 in
           let add := calc_next true off3 cur t2 in
-          if (c_len o <? off3 + esize)%Z then Err
+          if (esize <? 0)%Z then Err
+          else if (c_len o <? off3 + esize)%Z then Err
           else if (off3 + esize <? 0)%Z then Crash
           else
             Ok ({| c_len := c_len o; c_off := off3 + esize |},
@@ -280,6 +281,7 @@ Proof.
     cbn [obind].
     replace (c_off o + Z.of_nat (length n) + 2 + 1)%Z with (vidx + 1)%Z by (unfold vidx; lia).
     rewrite Hes.
+    replace (Z.of_nat (length rv) <? 0)%Z with false by lia.
     replace (c_len o <? vidx + 1 + Z.of_nat (length rv))%Z with false by (unfold vidx; lia).
     replace (vidx + 1 + Z.of_nat (length rv) <? 0)%Z with false by (unfold vidx; lia).
     reflexivity.
